@@ -110,14 +110,60 @@ def ordering():
     return out
 
 
+def multi_join():
+    """Derived tables / CTEs with their own WHERE, LIMIT, DISTINCT, aggregates or COALESCE projections placed under chains of
+    joins with sides: the shapes merge_subqueries, eliminate_joins, pushdown_projections and pushdown_predicates guard."""
+    out = []
+    inners = ["SELECT a, b FROM x WHERE a > 1", "SELECT a, b FROM x", "SELECT a, COALESCE(b, 0) AS b FROM x", "SELECT DISTINCT a, b FROM x",
+              "SELECT a, b FROM x ORDER BY a, b LIMIT 1", "SELECT MAX(a) AS a, MIN(b) AS b FROM x", "SELECT a, b FROM x UNION ALL SELECT b, c FROM y"]
+    for i in inners:
+        for j2 in ["RIGHT JOIN", "FULL JOIN", "LEFT JOIN", "JOIN"]:
+            out.append(f"SELECT q.a, y.c, z.c AS zc FROM ({i}) AS q JOIN y ON q.b = y.b {j2} z ON y.b = z.b")
+            out.append(f"WITH q AS ({i}) SELECT q.a, y.c, z.c AS zc FROM q JOIN y ON q.b = y.b {j2} z ON y.b = z.b")
+        out.append(f"SELECT y.c, q.a FROM y LEFT JOIN ({i}) AS q ON y.b = q.b")
+        out.append(f"SELECT y.c, q.b FROM y LEFT JOIN ({i}) AS q ON y.b = q.a WHERE q.b = 0")
+        out.append(f"SELECT y.c FROM y LEFT JOIN ({i}) AS q ON y.b = q.b")
+        out.append(f"SELECT y.c FROM y CROSS JOIN ({i}) AS q")
+        out.append(f"SELECT y.c FROM y JOIN ({i}) AS q ON y.b = q.b")
+        out.append(f"SELECT 1 AS one FROM ({i}) AS q")
+        out.append(f"SELECT q.a FROM ({i}) AS q")
+        out.append(f"SELECT COUNT(*) AS n FROM ({i}) AS q")
+    out += [
+        "SELECT x.a, y.c, z.c AS zc FROM x RIGHT JOIN y ON x.b = y.b RIGHT JOIN z ON y.b = z.b WHERE x.a > 0",
+        "SELECT x.a, y.c, z.c AS zc FROM x RIGHT JOIN y ON x.b = y.b RIGHT JOIN z ON y.b = z.b WHERE y.c > 0",
+        "SELECT x.a, z.c FROM x LEFT JOIN y ON x.b = y.b LEFT JOIN z ON y.b = z.b WHERE y.c IS NULL",
+        "SELECT x.a FROM x LEFT JOIN (SELECT b FROM y GROUP BY b) AS u ON x.b = u.b",
+        "SELECT x.a FROM x LEFT JOIN (SELECT DISTINCT b FROM y) AS u ON x.b = u.b",
+        "SELECT x.a FROM x LEFT JOIN (SELECT b, c FROM y GROUP BY b, c) AS u ON x.b = u.b",
+        "SELECT x.a FROM x LEFT JOIN (SELECT b FROM y UNION ALL SELECT b FROM z) AS u ON x.b = u.b",
+        "SELECT x.a FROM x LEFT JOIN (SELECT b FROM y UNION SELECT b FROM z) AS u ON x.b = u.b",
+        "SELECT x.a FROM x LEFT JOIN (SELECT MAX(b) AS b FROM y) AS u ON x.b = u.b",
+        "SELECT x.a FROM x CROSS JOIN (SELECT b FROM y ORDER BY b, c LIMIT 1) AS u",
+        "SELECT x.a FROM x CROSS JOIN (SELECT MAX(b) AS b FROM y) AS u",
+        "SELECT x.a FROM x LEFT JOIN (SELECT b FROM y ORDER BY b, c LIMIT 1) AS u ON TRUE",
+        "SELECT x.a FROM x LEFT JOIN (SELECT b FROM y ORDER BY b, c LIMIT 1) AS u ON x.b = u.b",
+        "SELECT s.n FROM (SELECT COUNT(*) AS n, SUM(a) AS t FROM x) AS s",
+        "SELECT s.k FROM (SELECT 1 AS k, SUM(a) AS t FROM x) AS s",
+        "SELECT 1 AS one FROM (SELECT SUM(a) AS t FROM x) AS s",
+        "SELECT s.k FROM (SELECT a AS k, SUM(b) AS t FROM x GROUP BY a) AS s",
+        "SELECT DISTINCT s.k FROM (SELECT a AS k, b FROM x) AS s",
+        "SELECT s.k FROM (SELECT DISTINCT a AS k, b FROM x) AS s",
+        "SELECT s.k FROM (SELECT a AS k, b FROM x UNION SELECT b, c FROM y) AS s",
+        "SELECT s.k FROM (SELECT a AS k, b FROM x EXCEPT SELECT b, c FROM y) AS s",
+        "SELECT s.k FROM (SELECT a AS k, b FROM x INTERSECT SELECT b, c FROM y) AS s",
+        "SELECT s.k FROM (SELECT a AS k, b FROM x ORDER BY b, a LIMIT 1) AS s",
+    ]
+    return out
+
+
 def programs(tier: str, seed: int):
     rnd = random.Random(seed)
-    fams = [("join", joins()), ("derived", derived()), ("subquery", subqueries()), ("aggregate", aggregates()), ("setop", setops()), ("order", ordering())]
+    fams = [("multi_join", multi_join()), ("join", joins()), ("derived", derived()), ("subquery", subqueries()), ("aggregate", aggregates()), ("setop", setops()), ("order", ordering())]
     out = []
     for name, progs in fams:
         if tier == "quick":
             rnd.shuffle(progs)
-            keep = {"join": 60, "derived": 60, "subquery": 90, "aggregate": 22, "setop": 24, "order": 26}[name]
+            keep = {"multi_join": 90, "join": 60, "derived": 60, "subquery": 90, "aggregate": 22, "setop": 24, "order": 26}[name]
             progs = progs[:keep]
         out += [(name, p) for p in progs]
     return out
